@@ -90,7 +90,7 @@ func digests(g *gitx.Git, dir string, hs []string) (map[string]string, map[strin
 
 func run(c *vf.Ctx) {
 	g := gitx.New(c.Scratch)
-	n := c.N(56, 1500)
+	n := c.N(140, 2000)
 	opsList := []string{"prune", "prune-old-limit", "prune-future-limit", "repack", "repack-refdelta", "repack-twice", "prune+repack"}
 	vf.Parallel(n, 6, func(i int) {
 		r := c.Rand("state", i)
@@ -98,12 +98,12 @@ func run(c *vf.Ctx) {
 		oneState(c, g, r, i, op)
 	})
 	c.Extra("git_invocations", gitx.Calls.Load())
-	c.Floor("states", c.Counter("states"), c.N(50, 1300))
-	c.Floor("operations that completed without error", c.Counter("operations_completed"), c.N(35, 900))
-	c.Floor("states with staged-only objects", c.Counter("states_with_staged_only"), c.N(15, 400))
-	c.Floor("states with detached HEAD", c.Counter("states_detached"), c.N(5, 150))
-	c.Floor("objects whose survival was verified", c.Counter("objects_verified"), c.N(1500, 60000))
-	c.Floor("garbage objects actually pruned (the operation did something)", c.Counter("garbage_pruned"), c.N(10, 200))
+	c.Floor("states", c.Counter("states"), c.N(130, 1800))
+	c.Floor("operations that completed without error", c.Counter("operations_completed"), c.N(90, 1200))
+	c.Floor("states with staged-only objects", c.Counter("states_with_staged_only"), c.N(40, 500))
+	c.Floor("states with detached HEAD", c.Counter("states_detached"), c.N(15, 200))
+	c.Floor("objects whose survival was verified", c.Counter("objects_verified"), c.N(4000, 60000))
+	c.Floor("garbage objects actually pruned (the operation did something)", c.Counter("garbage_pruned"), c.N(30, 300))
 	c.Assume("reachability ground truth from git rev-list --objects --all HEAD --indexed-objects (reflogs are not part of the property's root set and are disabled in the generated repositories)")
 }
 
